@@ -26,6 +26,10 @@ pub struct UtcDateTime(
 
 impl Default for UtcDateTime {
     fn default() -> Self {
+        #[cfg(sos_verif)]
+        if let Some(value) = verif_clock::now() {
+            return Self(value);
+        }
         Self(OffsetDateTime::now_utc())
     }
 }
@@ -158,5 +162,31 @@ impl From<OffsetDateTime> for UtcDateTime {
 impl From<UtcDateTime> for OffsetDateTime {
     fn from(value: UtcDateTime) -> Self {
         value.0
+    }
+}
+
+/// Clock override for the verification harness (no-op unless a
+/// clock function is installed).
+#[cfg(sos_verif)]
+pub mod verif_clock {
+    use std::sync::RwLock;
+    use time::OffsetDateTime;
+
+    /// Clock function returning (unix seconds, nanoseconds).
+    pub type ClockFn = fn() -> (i64, u32);
+
+    static CLOCK: RwLock<Option<ClockFn>> = RwLock::new(None);
+
+    /// Install or remove the process-wide clock override.
+    pub fn set_clock(clock: Option<ClockFn>) {
+        *CLOCK.write().unwrap() = clock;
+    }
+
+    pub(super) fn now() -> Option<OffsetDateTime> {
+        let clock = (*CLOCK.read().unwrap())?;
+        let (secs, nanos) = clock();
+        OffsetDateTime::from_unix_timestamp(secs)
+            .ok()
+            .map(|t| t + time::Duration::nanoseconds(nanos as i64))
     }
 }
